@@ -18,6 +18,7 @@
 #include <sys/mman.h>
 #include <stdlib.h>
 #include <unistd.h>
+#include <errno.h>
 
 #if defined(__SANITIZE_ADDRESS__)
 #    include <sanitizer/asan_interface.h>
@@ -30,7 +31,7 @@
 #    define GA_NOSAN
 #endif
 
-#define GA_ARENA_BASE ((uintptr_t)0x100000000000ull)
+#define GA_ARENA_BASE ((uintptr_t)0x200000000000ull) /* inside ASan's "HighMem" application range; 0x1000_0000_0000 lies in its shadow and can never be mapped */
 #define GA_ARENA_SIZE ((size_t)1 << 30)
 #define GA_RZ 32
 #define GA_CLASSES 4097 /* rounded size / 16, up to 64 KiB */
@@ -66,6 +67,7 @@ GA_NOSAN static void ga_init_once(void) {
     void *p = mmap((void *)GA_ARENA_BASE, GA_ARENA_SIZE, PROT_READ | PROT_WRITE,
                    MAP_PRIVATE | MAP_ANONYMOUS | MAP_NORESERVE | MAP_FIXED_NOREPLACE, -1, 0);
     if (p == MAP_FAILED) {
+        fprintf(stderr, "galloc: the fixed arena address is taken (errno %d); addresses are no longer reproducible across processes\n", errno);
         p = mmap(NULL, GA_ARENA_SIZE, PROT_READ | PROT_WRITE, MAP_PRIVATE | MAP_ANONYMOUS | MAP_NORESERVE, -1, 0);
         if (p == MAP_FAILED) {
             perror("galloc mmap");
